@@ -157,10 +157,14 @@ def fix(
     if not fix_even_unparsable:
         # If fix_even_unparsable wasn't set, check for templating or parse
         # errors and suppress fixing if there were any.
-        _, num_filtered_errors = result.count_tmp_prs_errors()
-        if num_filtered_errors > 0:
+        # NOTE: Use the count *before* noqa/ignore filtering, as the CLI does.
+        # A suppressed error still means the file cannot be fixed safely.
+        total_errors, _ = result.count_tmp_prs_errors()
+        if total_errors > 0:
             should_fix = False
-    if should_fix:
+    # NOTE: Without a parse tree (e.g. a fatal parse error which was itself
+    # suppressed) there is nothing to fix from.
+    if should_fix and result.paths[0].files[0].tree is not None:
         sql = result.paths[0].files[0].fix_string()[0]
     return sql
 
